@@ -17,22 +17,33 @@ SchemaP == SchemaF(<<
     <<"sl", ListF(SecureF)>>,
     <<"dd", DictF(StringF, BytesF)>>,
     <<"api", With(StringF, [sensitive |-> TRUE])>>,
+    <<"dflt", With(DictF(StringF, IntF), [default |-> D2(<<"a">>, IntV(1), <<"b">>, IntV(2))])>>,
+    <<"dl", With(ListF(IntF), [default |-> ListV(<<IntV(1), IntV(2)>>)])>>,
     <<"sub", SubP>>,
     <<"vault", VaultT>>,
     <<"items", ListF(ItemP)>>,
     <<"virt", VirtualF>>,
     <<"svirt", VirtualF @@ [sensitive |-> TRUE]>> >>)
 
-MCKeyNames == {"name", "pw", "hash", "blob", "bl", "sl", "dd", "api", "sub", "tok", "port", "vault", "sec", "inner", "n", "items", "u", "virt", "svirt"}
-MCKeyChars == [k \in MCKeyNames |-> CASE k = "name" -> <<"n", "a", "m", "e">> [] k = "pw" -> <<"p", "w">> [] k = "hash" -> <<"h", "a", "s", "h">> [] k = "blob" -> <<"b", "l", "o", "b">> [] k = "bl" -> <<"b", "l">> [] k = "sl" -> <<"s", "l">> [] k = "dd" -> <<"d", "d">> [] k = "api" -> <<"a", "p", "i">> [] k = "sub" -> <<"s", "u", "b">> [] k = "tok" -> <<"t", "o", "k">> [] k = "port" -> <<"p", "o", "r", "t">> [] k = "vault" -> <<"v", "a", "u", "l", "t">> [] k = "sec" -> <<"s", "e", "c">> [] k = "inner" -> <<"i", "n", "n", "e", "r">> [] k = "n" -> <<"n">> [] k = "items" -> <<"i", "t", "e", "m", "s">> [] k = "u" -> <<"u">> [] k = "virt" -> <<"v", "i", "r", "t">> [] k = "svirt" -> <<"s", "v", "i", "r", "t">>]
+MCKeyNames == {"dflt", "dl", "name", "pw", "hash", "blob", "bl", "sl", "dd", "api", "sub", "tok", "port", "vault", "sec", "inner", "n", "items", "u", "virt", "svirt"}
+MCKeyChars == [k \in MCKeyNames |-> CASE k = "dflt" -> <<"d", "f", "l", "t">> [] k = "dl" -> <<"d", "l">> [] k = "name" -> <<"n", "a", "m", "e">> [] k = "pw" -> <<"p", "w">> [] k = "hash" -> <<"h", "a", "s", "h">> [] k = "blob" -> <<"b", "l", "o", "b">> [] k = "bl" -> <<"b", "l">> [] k = "sl" -> <<"s", "l">> [] k = "dd" -> <<"d", "d">> [] k = "api" -> <<"a", "p", "i">> [] k = "sub" -> <<"s", "u", "b">> [] k = "tok" -> <<"t", "o", "k">> [] k = "port" -> <<"p", "o", "r", "t">> [] k = "vault" -> <<"v", "a", "u", "l", "t">> [] k = "sec" -> <<"s", "e", "c">> [] k = "inner" -> <<"i", "n", "n", "e", "r">> [] k = "n" -> <<"n">> [] k = "items" -> <<"i", "t", "e", "m", "s">> [] k = "u" -> <<"u">> [] k = "virt" -> <<"v", "i", "r", "t">> [] k = "svirt" -> <<"s", "v", "i", "r", "t">>]
 MCEnviron == [x \in {} |-> <<>>]
 
+\* a ready-made instance of the vault type (it names its own key file) with secrets already set
+VaultF == FieldOf(S, "vault")
+VaultObj == LET d == DefaultCfg(VaultF, <<"vault">>).cfg
+                a == SetPath(VaultF, d, <<>>, "sec", StrV(<<"o", "b", "j", "s", "e", "c", "#", "9">>)).cfg
+            IN  SetPath(VaultF, a, <<"inner">>, "tok", StrV(<<"o", "b", "j", "t", "o", "k", "#", "8">>)).cfg
+LongSecret == StrV(<<"0", "1", "2", "3", "4", "5", "6", "7", "8", "9", "a", "b", "c", "d", "e", "f", "g", "h", "i", "j",
+                     "k", "l", "m", "n", "o", "p", "q", "r", "s", "t", "u", "v", "w", "x", "y", "z", "A", "B", "C", "D", "#", "!">>)
 MCSetCands ==
-    [pk \in {<< <<>>, "name">>, << <<>>, "pw">>, << <<>>, "hash">>, << <<>>, "blob">>, << <<>>, "bl">>, << <<>>, "sl">>,
+    [pk \in {<< <<>>, "dflt">>, << <<>>, "dl">>, << <<>>, "name">>, << <<>>, "pw">>, << <<>>, "hash">>, << <<>>, "blob">>, << <<>>, "bl">>, << <<>>, "sl">>,
              << <<>>, "dd">>, << <<>>, "api">>, << <<"sub">>, "tok">>, << <<>>, "vault">>, << <<"vault">>, "sec">>,
              << <<"vault", "inner">>, "tok">>, << <<>>, "items">>} |->
-        CASE pk[2] = "name"  -> {StrV(<<"b", "o", "b">>), StrV(<<" ", "p", "a", "d", " ", "<", "&", ">", "\t", "\n">>)}
-          [] pk[2] = "pw"    -> {StrV(<<"s", "3", "c", "r", "e", "t", "!", "p", "w">>), StrV(<<>>)}
+        CASE pk[2] = "dflt"  -> {D1(<<"a">>, IntV(5)), DictV(<<>>)}
+          [] pk[2] = "dl"    -> {ListV(<<>>), ListV(<<IntV(2)>>)}
+          [] pk[2] = "name"  -> {StrV(<<"b", "o", "b">>), StrV(<<" ", "p", "a", "d", " ", "<", "&", ">", "\t", "\n">>)}
+          [] pk[2] = "pw"    -> {StrV(<<"s", "3", "c", "r", "e", "t", "!", "p", "w">>), StrV(<<>>), LongSecret}
           [] pk[2] = "hash"  -> {StrV(<<"h", "u", "n", "t", "e", "r", "2", "!">>)}
           [] pk[2] = "blob"  -> {BytesV(<<0, 255, 65>>), BytesV(<<>>)}
           [] pk[2] = "bl"    -> {ListV(<<BytesV(<<1, 2>>), StrV(<<"a", "b">>)>>)}
@@ -40,7 +51,7 @@ MCSetCands ==
           [] pk[2] = "dd"    -> {D1(<<"k">>, BytesV(<<7>>))}
           [] pk[2] = "api"   -> {StrV(<<"A", "P", "I", "K", "E", "Y", "-", "7", "7">>)}
           [] pk[1] = <<"sub">> -> {StrV(<<"s", "u", "b", "t", "o", "k", "e", "n", "#", "1">>)}
-          [] pk[2] = "vault" -> {D1(<<"s", "e", "c">>, StrV(<<"v", "a", "u", "l", "t", "s", "e", "c", "#", "2">>))}
+          [] pk[2] = "vault" -> {D1(<<"s", "e", "c">>, StrV(<<"v", "a", "u", "l", "t", "s", "e", "c", "#", "2">>)), [t |-> "cfgobj", c |-> VaultObj]}
           [] pk[2] = "sec"   -> {StrV(<<"v", "a", "u", "l", "t", "s", "e", "c", "#", "3">>)}
           [] pk[1] = <<"vault", "inner">> -> {StrV(<<"i", "n", "n", "e", "r", "t", "o", "k", "#", "4">>)}
           [] pk[2] = "items" -> {ListV(<<D2(<<"u">>, StrV(<<"a", "l", "i", "c", "e">>), <<"p", "w">>, StrV(<<"i", "t", "e", "m", "p", "a", "s", "s", "#", "5">>))>>),
